@@ -534,6 +534,8 @@ class Gen:
         p, par = (self.pick(lambda n: n.ty in X_AGGS) or self.pick()) if rng.random() < 0.85 else self.pick()
         i = rng.choice([0, 1, len(par.kids) - 1, len(par.kids), len(par.kids) + 3, -1]) if rng.random() < 0.7 \
             else rng.randint(0, max(0, len(par.kids)))
+        if rng.random() < 0.12:      # indices with many digits: the exception's path has to spell them out
+            i = rng.choice([999999999, 1000000000, 2147483647, -2147483648, -999999999, -1000000000, 123456789])
         self.emit("xidx %s %d" % (path_str(p), i))
         self.emit("elem %s %d" % (path_str(p), i))
 
@@ -566,6 +568,8 @@ class Gen:
         if rng.random() < 0.15:
             p, par = self.pick()
         i = rng.choice([0, len(par.kids) - 1, len(par.kids), len(par.kids) + 5]) if rng.random() < 0.8 else rng.randint(0, 40)
+        if rng.random() < 0.1:
+            i = rng.choice([999999999, 1000000000, 2147483647, 123456789])
         self.emit("xrmi %s %d" % (path_str(p), max(i, 0)))
 
     def op_setfmt(self):
